@@ -10,7 +10,7 @@ fn i(x: i64) -> i32 {
 
 pub fn arity(name: &str) -> usize {
     match name {
-        n if n.ends_with("make_hint") || n.ends_with("use_hint") => 2,
+        n if n.ends_with("make_hint") || n.ends_with("use_hint") || n.ends_with("hint_roundtrip") => 2,
         _ => 1,
     }
 }
@@ -30,6 +30,9 @@ pub fn lookup(name: &str) -> Option<ScalarFn> {
         "rounding::lvl2::use_hint" => |a| vec![rounding::lvl2::use_hint(i(a[0]), i(a[1])) as i64],
         "rounding::lvl3::use_hint" => |a| vec![rounding::lvl3::use_hint(i(a[0]), i(a[1])) as i64],
         "rounding::lvl5::use_hint" => |a| vec![rounding::lvl5::use_hint(i(a[0]), i(a[1])) as i64],
+        "rounding::lvl2::hint_roundtrip" => |a| { let g = crystals_dilithium::params::lvl2::GAMMA2 as i64; let r = (a[1] * 2 * g + a[0]).rem_euclid(8380417); vec![rounding::lvl2::use_hint(i(r), rounding::lvl2::make_hint(i(a[0]), i(a[1]))) as i64] },
+        "rounding::lvl3::hint_roundtrip" => |a| { let g = crystals_dilithium::params::lvl3::GAMMA2 as i64; let r = (a[1] * 2 * g + a[0]).rem_euclid(8380417); vec![rounding::lvl3::use_hint(i(r), rounding::lvl3::make_hint(i(a[0]), i(a[1]))) as i64] },
+        "rounding::lvl5::hint_roundtrip" => |a| { let g = crystals_dilithium::params::lvl5::GAMMA2 as i64; let r = (a[1] * 2 * g + a[0]).rem_euclid(8380417); vec![rounding::lvl5::use_hint(i(r), rounding::lvl5::make_hint(i(a[0]), i(a[1]))) as i64] },
         _ => return None,
     })
 }
